@@ -79,6 +79,83 @@ def c20_fa(t: T9, m: int, starts: int, finals: int, l0: int, l1: int, s0: int, s
     return chx.judge("C20", "c20_fa", raw, (edges, st, fi, labels, syms), obs, _fa_oracle)
 
 
+# ----------------------------------------------------------------------------------------
+# FST <-> networkx
+
+FST_STATE_PAIRS = [(0, 1), ("p", "q r"), ('x"y', "0"), ("starting_0", 0), (2.5, "q->r")]
+FST_IN = ["a", "epsilon", 1, "a b", 'x"y', "->", "x->y", ""]
+FST_OUT = [[], ["x"], ["x", "y"], ["->", 1], ["a b", 'x"y'], ["x->y"]]
+
+
+def plain_fst(f):
+    trans = []
+    for (q, a), targets in f.transitions.items():
+        for q2, outs in targets:
+            trans.append((q, a, q2, tuple(outs)))
+    return {"states": list(f.states), "starts": list(f.start_states), "finals": list(f.final_states),
+            "trans": trans}
+
+
+def _fst_oracle(args, obs):
+    trans, starts, finals = args
+    states = set(starts) | set(finals)
+    for q, a, q2, outs in trans:
+        states |= {q, q2}
+    want = plain_sorted({"states": states, "starts": starts, "finals": finals,
+                         "trans": [(q, a, q2, tuple(outs)) for q, a, q2, outs in trans]})
+    # parallel transitions with the same output are one transition
+    want["trans"] = sorted(set(want["trans"]))
+    fails = []
+    tags = ["state_%r" % (x,) for x in sorted(states, key=repr)]
+    res = obs["roundtrip"]
+    if res[0] == "exc":
+        fails.append(chx.exc_failure("FST.from_networkx(to_networkx())", res, tags=tags))
+    else:
+        got = plain_sorted(res[1])
+        got["trans"] = sorted(set(got["trans"]))
+        if got != want:
+            fails.append({"kind": "shape", "op": "FST.from_networkx(to_networkx())", "tags": tags,
+                          "detail": "re-imported transducer differs: %r, expected %r" % (got, want)})
+    src = obs["source"]
+    if src[0] == "ok":
+        sv = plain_sorted(src[1])
+        sv["trans"] = sorted(set(sv["trans"]))
+        if sv != want:        # the harness itself: what was built is what was meant
+            fails.append({"kind": "harness", "op": "build", "detail": "built %r, meant %r" % (sv, want)})
+    return bool(trans) and bool(starts) and bool(finals), fails, want
+
+
+def c20_fst(f0: int, i0: int, t0: int, o0: int, second: int, sl: int, starts: int, finals: int) -> bool:
+    """
+    pre: pinned(sl=sl, i0=i0, starts=starts, finals=finals)
+    pre: ((0 <= f0) & (f0 < 2)) & ((0 <= i0) & (i0 < 8)) & ((0 <= t0) & (t0 < 2)) & ((0 <= o0) & (o0 < 6)) & ((0 <= second) & (second < 7)) & ((0 <= sl) & (sl < 5))
+    pre: ((0 <= starts) & (starts < 4)) & ((0 <= finals) & (finals < 4))
+    post: _
+    """
+    raw = (f0, i0, t0, o0, second, sl, starts, finals)
+    names = FST_STATE_PAIRS[enc.pick(sl, 5)]
+    q, q2 = names[enc.pick(f0, 2)], names[enc.pick(t0, 2)]
+    a = FST_IN[enc.pick(i0, 8)]
+    trans = [(q, a, q2, FST_OUT[enc.pick(o0, 6)])]
+    sec = enc.pick(second, 7)
+    if sec > 0:                      # a parallel transition: same source, input and target, another output
+        trans.append((q, a, q2, FST_OUT[sec - 1]))
+    st = [names[i] for i in enc.mask_members(starts, 2)]
+    fi = [names[i] for i in enc.mask_members(finals, 2)]
+    chx.enter("c20_fst", raw)
+    from pyformlang.fst import FST
+    fst = FST()
+    for (x, b, y, outs) in trans:
+        fst.add_transition(x, b, y, list(outs))
+    for x in st:
+        fst.add_start_state(x)
+    for x in fi:
+        fst.add_final_state(x)
+    obs = {"source": chx.guarded(plain_fst, fst),
+           "roundtrip": chx.guarded(lambda: plain_fst(FST.from_networkx(fst.to_networkx())))}
+    return chx.judge("C20", "c20_fst", raw, (trans, st, fi), obs, _fst_oracle)
+
+
 THOROUGH = chx.thorough()
 NSTATE = len(STATE_LABELS)
 NSYM = len(SYMBOL_LABELS)
@@ -374,4 +451,14 @@ CONDS = [
                    "one box per head, box automaton == union of the head's alternatives; from_regex for one line",
           "thorough": "all first tokens"},
          FUNCS, RULE, assumptions=ASSUME),
+    Cond("C20", c20_fst, lambda tier: product_pins(sl=[0, 1, 2, 3, 4], i0=list(range(8)), starts=[3], finals=[2])
+         if tier == "quick" else product_pins(sl=[0, 1, 2, 3, 4], i0=list(range(8)), starts=[1, 2, 3], finals=[1, 2, 3]),
+         {"quick": "transducer with 2 states (5 label pairs incl. 'starting_0', 2.5, 'q->r'), one transition with "
+                   "symbolic source / target, input from {a, epsilon, 1, 'a b', 'x\"y', '->', 'x->y', ''} and output "
+                   "from 6 lists (empty, multi-symbol, '->', 'x->y'), optionally a parallel transition with another "
+                   "output; both states start, state 1 final: same states, marking and transitions after "
+                   "FST.from_networkx(to_networkx())",
+          "thorough": "all non-empty start and final masks"},
+         ["FST.to_networkx", "FST.from_networkx", "FST.add_transition", "FST.transitions"],
+         "transducer has a transition, a start and a final state"),
 ]
